@@ -16,7 +16,8 @@ Vocabulary (Spec/Twap.lean): `weights h a b` lists every record with the canonic
 FULL: history_well_formed, arith_acc_is_integral, weights_sum_to_interval, arith_twap_eq_weighted_mean
 (+ rounding form), arith_between_min_max, point_interval_is_last_recorded_price,
 prune_preserves_answers_in_window, error_flagged_iff_interval_touches_error (+ the general form without
-the zero-price hypothesis), geom_eq_exp2_mean_log2 (exact, in terms of the model's exp2 / logBase2 /
+the zero-price hypothesis; + start_inside_error_period_flagged, interval_after_recovery_not_flagged: the two
+directions at nanosecond resolution, drain / recovery / start inside one millisecond included), geom_eq_exp2_mean_log2 (exact, in terms of the model's exp2 / logBase2 /
 sigFigRound).
 SEVERAL POOLS / PAIRS (`World`, one `Store` per (pool, denom0, denom1); `endBlock` = the record loop of
 `Keeper.EndBlock` over the changed pools, logging-and-continuing on a pool's error; FULL, all worlds):
@@ -385,6 +386,38 @@ theorem error_flagged_iff_interval_touches_error {s : Store} (wf : WF s) {now a 
       · have := recAtOrBefore_latest wf.chain hrb r' hr' h1; omega
   · exact Or.inl
 
+/-- **start_inside_error_period_flagged** — the error flag at NANOSECOND resolution: if the record in force at the
+start `a` is an error record, every answered interval `[a, b]` is flagged, wherever `a`, the record's time and the
+next record (the recovery) sit inside their milliseconds.  The accumulators only see canonical milliseconds; the error
+bookkeeping compares the nanosecond instants `time` / `lastErr`, and the start record interpolated to `a` inherits the
+error AT `a` (`getInterpolatedRecord`), so `startRecord.LastErrorTime = startRecord.Time` holds exactly.  (A record time
+rounded to milliseconds while the error time is not — seeded change C10-m7 — breaks `interp`'s `time := newTime`,
+i.e. this theorem's model no longer is the code: T1 and the differential run report it.) -/
+theorem start_inside_error_period_flagged {s : Store} (wf : WF s) {now a b : Int} {q0 : Bool} {st : Strategy}
+    {res : Int × Bool} (hnow : ∀ r ∈ s.hist, r.time ≤ now) (h : getTwap s now a b q0 st = .ok res)
+    {ra : TwapRecord} (hra : recAtOrBefore s.hist a = some ra) (he : IsErr ra) : res.2 = true := by
+  obtain ⟨hab, _⟩ := getTwap_ok wf hnow h
+  obtain ⟨ra', rb, hra', _, hiff⟩ := error_flag_general wf hnow h
+  rw [hra] at hra'
+  cases hra'
+  obtain ⟨ram, rat⟩ := recAtOrBefore_mem hra
+  refine hiff.mpr (Or.inl ⟨ra, he, ram, by omega, fun r' hr' hlt => ?_⟩)
+  rcases Int.lt_or_le a r'.time with h1 | h1
+  · exact h1
+  · have := recAtOrBefore_latest wf.chain hra r' hr' h1; omega
+
+/-- … and an interval that starts at or after the recovery record (no error record in force during it) is not
+flagged, however few nanoseconds after the drain the recovery was recorded. -/
+theorem interval_after_recovery_not_flagged {s : Store} (wf : WF s) {now a b : Int} {q0 : Bool} {st : Strategy}
+    {res : Int × Bool} (hnow : ∀ r ∈ s.hist, r.time ≤ now) (hzero : ∀ r ∈ s.hist, r.sp0 = 0 → IsErr r)
+    (h : getTwap s now a b q0 st = .ok res)
+    (hclean : ∀ r ∈ s.hist, IsErr r → ¬ InForce s.hist r a b) : res.2 = false := by
+  cases hf : res.2 with
+  | false => rfl
+  | true =>
+    obtain ⟨r, he, hin⟩ := (error_flagged_iff_interval_touches_error wf hnow hzero h).mp hf
+    exact absurd hin (hclean r hin.1 he)
+
 /-! ## geometric TWAP -/
 
 /-- **geom_eq_exp2_mean_log2**: for a non-degenerate interval the geometric TWAP returned is the model's
@@ -663,6 +696,23 @@ example :
     weights s.hist (canonicalMs 1000000000) (canonicalMs 5000000000) =
       [(⟨1000000000, 1, 4 * P18, P18 / 4, 0, 0, 0, zeroTime⟩, 2000),
        (⟨3000000000, 2, P18, P18, 8000 * P18, 500 * P18, 4000 * P18, zeroTime⟩, 2000)] := by decide +kernel
+
+/-- block times with sub-millisecond parts: the pool is drained at 3 s + 700 ns and recovers 200 ns later, INSIDE the same
+canonical millisecond.  Flag of the answer (both strategies): start between drain and recovery → flagged; start on the
+recovery record or 1 ns after it → not flagged; the instants themselves (start = end); an interval ending on / 1 ns before the drain. -/
+example :
+    let s := runOps (create {} 1000000300 1 (2 * P18) (P18 / 2) false)
+      [.update 3000000700 2 0 0 true, .update 3000000900 3 (4 * P18) (P18 / 4) false, .update 5000000100 4 (4 * P18) (P18 / 4) false]
+    let flag := fun (r : Res (Int × Bool)) => match r with | .ok (_, f) => some f | _ => none
+    flag (getTwap s 6000000000 3000000800 5000000300 true .arithmetic) = some true ∧
+    flag (getTwap s 6000000000 3000000800 5000000300 true .geometric) = some true ∧
+    flag (getTwap s 6000000000 3000000900 5000000300 true .arithmetic) = some false ∧
+    flag (getTwap s 6000000000 3000000901 5000000300 false .geometric) = some false ∧
+    flag (getTwap s 6000000000 3000000800 3000000800 true .arithmetic) = some true ∧
+    flag (getTwap s 6000000000 3000000700 3000000700 true .geometric) = some true ∧
+    flag (getTwap s 6000000000 3000000900 3000000900 true .arithmetic) = some false ∧
+    flag (getTwap s 6000000000 1000000300 3000000700 true .arithmetic) = some true ∧
+    flag (getTwap s 6000000000 1000000300 3000000699 true .arithmetic) = some false := by decide +kernel
 
 /-- two pools, two blocks with the SAME timestamp: pool 1 (two pairs, one denom a prefix of the other) changed in
 both blocks — its second update is rejected and its records stay; pool 2 changed only in the second block and
